@@ -82,6 +82,11 @@ def gen(rng, tier):
                     tok, _ = txgen.spell(rng, v, [sp])
                     j2 = replace_field(j, key, tok)
                     cases.append(Case("tx.parse " + hx(j2), tags=("spelling:" + sp, "kind:" + kind), meta={"group": (repr(group) if not (sp.startswith("float") and v >= 10 ** 15) else None), "field": key, "token": str(tok)}))
+                # zero-padded spellings of the same value (a 32-byte word, wider, upper case, decimal with leading zeros)
+                import json as _jp
+                for sp, t in (("hex-word64", "0x%064x" % v), ("hex-pad66", "0x%066X" % v), ("dec-pad", "00" + str(v))):
+                    if rng.random() < (1.0 if tier == "thorough" else 0.5):
+                        cases.append(Case("tx.parse " + hx(replace_field(j, key, _jp.dumps(t))), tags=("spelling:" + sp, "kind:" + kind), meta={"group": repr(group), "field": key, "token": t}))
     # 2. random well-formed documents
     for _ in range(1500 if tier == "thorough" else 300):
         j, _ = txgen.rand_tx(rng)
